@@ -1020,10 +1020,13 @@ func applyChangeToConfig(values map[string]configapi.PathValue, path string, val
 	// Walk up the path and make sure that there are no parents marked as deleted in the given map, if so, remove them
 	parent := pathutils.GetParentPath(path)
 	for parent != "" {
-		if v, ok := values[parent]; ok && v.Deleted {
-			// Delete the parent marked as deleted and return its path and value
-			delete(values, parent)
-			return parent, true, v
+		// A list entry is also beneath its list when the list was deleted as a whole (by its key-less path)
+		for _, ancestor := range []string{parent, pathutils.GetListPath(parent)} {
+			if v, ok := values[ancestor]; ancestor != "" && ok && v.Deleted {
+				// Delete the parent marked as deleted and return its path and value
+				delete(values, ancestor)
+				return ancestor, true, v
+			}
 		}
 		parent = pathutils.GetParentPath(parent)
 	}
